@@ -8,6 +8,8 @@ import (
 	"github.com/chain4energy/c4e-chain/x/cfedistributor/types"
 	"github.com/cosmos/cosmos-sdk/codec"
 	sdk "github.com/cosmos/cosmos-sdk/types"
+	sdkerrors "github.com/cosmos/cosmos-sdk/types/errors"
+	authtypes "github.com/cosmos/cosmos-sdk/x/auth/types"
 	paramtypes "github.com/cosmos/cosmos-sdk/x/params/types"
 )
 
@@ -59,7 +61,23 @@ func (k Keeper) atomically(ctx sdk.Context, transfer func(ctx sdk.Context) error
 	return nil
 }
 
+// checkModuleAccounts returns an error when an account of another type is stored at the address of one of the
+// named module accounts. x/auth panics on such an account, and some messages (a fee allowance of x/feegrant) create
+// a base account for any address that has none - also for a module account that has not been used yet.
+func (k Keeper) checkModuleAccounts(ctx sdk.Context, moduleNames ...string) error {
+	for _, name := range moduleNames {
+		acc := k.accountKeeper.GetAccount(ctx, authtypes.NewModuleAddress(name))
+		if _, ok := acc.(authtypes.ModuleAccountI); acc != nil && !ok {
+			return sdkerrors.ErrInvalidType.Wrapf("account %s at the address of module account %s is not a module account", acc.GetAddress(), name)
+		}
+	}
+	return nil
+}
+
 func (k Keeper) SendCoinsFromModuleToModule(ctx sdk.Context, coins sdk.Coins, moduleFrom string, moduleTo string) error {
+	if err := k.checkModuleAccounts(ctx, moduleFrom, moduleTo); err != nil {
+		return err
+	}
 	return k.atomically(ctx, func(ctx sdk.Context) error {
 		return k.bankKeeper.SendCoinsFromModuleToModule(ctx, moduleFrom, moduleTo, coins)
 	})
